@@ -1,6 +1,7 @@
 package yqlib
 
 import (
+	"fmt"
 	"strconv"
 	"strings"
 
@@ -538,6 +539,10 @@ func encodeParseIndent(outputFormat *Format) yqAction {
 		var indent, errParsingInt = extractNumberParameter(value)
 		if errParsingInt != nil {
 			return nil, errParsingInt
+		}
+		if indent > 1000000 {
+			// the indent is materialised as a string of that many blanks
+			return nil, fmt.Errorf("indent %v is too large (at most 1000000)", indent)
 		}
 
 		prefs := encoderPreferences{format: outputFormat, indent: indent}
